@@ -50,6 +50,7 @@ BUF, VSVAL = "buffer", "vsval"     # a freshly obtained buffer (its slots); a `R
 BD, DRAIN, ITER2 = "bound", "drainstruct", "sliceiter"
 SLICE, CB2 = "slice", "cb2"   # a sub-slice of the vector's buffer (first slot, length); a two-argument predicate (call log as data)
 VECSNAP = "vecsnap"       # the receiver of a `&self` method that builds a new vector: a snapshot of the source vector (`V.VS`)
+ESLICE = "elemslice"       # `&[T]` outside the buffer whose elements are read (cloned), not copied bitwise: the list of its elements
 VIT = "vit"               # an iterator handed to the vector by value (the model's `V.It`): owned by the local that holds it
 XSLICE = "xslice"         # a slice outside the vector's buffer (`&[T]`, `*const [T]`): its slots
 XPTR = "xptr"             # pointer to the first element of such a slice
@@ -90,6 +91,7 @@ def lean_ty(t):
     if t == SLICE: return "(Nat × Nat)"
     if t == XSLICE: return "(List (Option V.Elem))"
     if t == VIT: return "V.It"
+    if t == ESLICE: return "(List V.Elem)"
     if t == VECSNAP: return "V.VS"
     if t == CB2: return "(Nat → V.Elem → V.Elem → Option Bool)"
     if t == BUF: return "(List (Option V.Elem))"
@@ -272,6 +274,12 @@ FUNCS += [
 ]
 FUNCS[-1].builds_vec = True
 FUNCS[-2].builds_vec = True
+FUNCS += [
+    Fn("extend_from_slice", "vec", "st", file=VEC_RS, group="VecCopy", lean="vec_extend_from_slice", ptypes={"other": "elemslice"}),
+    Fn("write", "vec", "st", file=VEC_RS, group="VecCopy", anchor="io::Write for Vec<'bump, u8>", lean="vec_io_write", ptypes={"buf": "xslice"}, ret=res(NAT)),
+    Fn("write_all", "vec", "st", file=VEC_RS, group="VecCopy", anchor="io::Write for Vec<'bump, u8>", lean="vec_io_write_all", ptypes={"buf": "xslice"}, ret=res(UNIT)),
+    Fn("flush", "vec", "st", file=VEC_RS, group="VecCopy", anchor="io::Write for Vec<'bump, u8>", lean="vec_io_flush", ret=res(UNIT)),
+]
 DRAIN_FIELDS = [("tail_start", "usize"), ("tail_len", "usize"), ("iter", "slice::Iter<'a,T>")]
 FUNCS += [
     Fn("drain", "vec", "st", file=VEC_RS, group="VecDrain", anchor=VEC_IMPL, lean="vec_drain", ptypes={"range": ("tuple", [BD, BD])}),
@@ -795,6 +803,10 @@ class Tr:
                 return f"{paren(t)}.2", NAT
             if ty == VECSNAP and name == "len" and not args:
                 return f"{paren(t)}.len", NAT
+            if ty == ESLICE and name == "iter" and not args:
+                return t, ("esliceiter",)
+            if ty == ("esliceiter",) and name == "cloned" and not args:
+                return f"(V.It.cloned {paren(t)})", VIT
             if ty == VECSNAP and name == "iter" and not args:
                 return t, ("snapiter",)
             if ty == ("snapiter",) and name == "cloned" and not args:
